@@ -3,7 +3,7 @@ SPEC = {
     "coq_props": ["Properties/C09.v", "Corr/C09.v"],
     "module": "MS.Properties.C09",
     "theorems": ["C09_guarded", "C09_guarded_any_codec", "C09_writer", "C09_store", "C09_read_all",
-                 "C09_refuted_F4", "C09_refuted_F2", "C09_refuted_F1", "C09_refuted_F3", "C09_refuted_4H"],
+                 "C09_refuted_F2", "C09_refuted_F3", "C09_refuted_4H"],
     "corr_require": "Require Import MS.Corr.C09.",
     "agrees": "C09.agrees",
     "in_domain": "C09.in_domain",
@@ -33,15 +33,15 @@ SPEC = {
         "instance timezone UTC; one bucket; variable compression enabled (default); all writes succeed; no crash (C02/C05), no concurrency (C18)",
         "'query over all time' = the query API's default bounds time.Unix(0,0)..time.Unix(MaxInt64,0) through QueryService.ExecuteQuery; rows dated 1970..9999",
         "sort.Stable is modelled by stable insertion sort (any stable sort by the same key gives the same list)",
-        "the bound 'not later than written, at most one resolution step earlier' is C10's reading (ceil(tf/2^32) ns); it is part of the guard "
-        "(class decoded-second-rounded-up), C10 owns the analytic theorem",
+        "the bound 'not later than written, at most one resolution step earlier' is C10's reading (ceil(tf/2^32) ns); C10 proves it only "
+        "partially, so it stays a hypothesis of the guard (evaluated per history with the concrete codec), no longer a finding class",
     ],
     "level": "proof",
     "level_text": "Coq theorem C09_guarded: for EVERY write history (any requests, any row order, many records per interval, any years) inside "
                   "the guard the query over all time returns a permutation of the written records (exactly once, payload bit-equal), in "
                   "non-decreasing time order; C09_writer/C09_store: for ALL histories and all tick codecs every slot stays stably sorted by "
-                  "ticks and holds exactly the records written to it; five replayed refutations (F4 buffer panic, F2 daily Jan-1, F1 second "
-                  "rounded up, F3 cross-year merge, 4H not queryable). Model tied to the code by differential in-Coq evaluation on every run.",
+                  "ticks and holds exactly the records written to it; three replayed refutations (F2 daily Jan-1, F3 cross-year merge, 4H "
+                  "not queryable); F4 (buffer panic, 247ada4) and F1 (second rounded up, 551fdb4) are fixed in /repo, their guards dropped. Model tied to the code by differential in-Coq evaluation on every run.",
     "level_note": "Axioms: Coq.Reals (through Flocq's definition of the tick codec) for the instantiated theorem only. Trusted: Coq kernel/VM, "
                   "gen translator, harness. Modelled not verified: writer.go WriteRecords/formatRecord/WriteBufferToFileIndirect, sort.go, "
                   "wal.go FlushCommandsToWAL order, readvariable.go, rewritebuffer.go, scanner.go, timeindex.go.",
